@@ -137,7 +137,6 @@ var c08Audited = map[string]c08Audit{
 	"pkg/spao.zeroOutMutablePath":              {4, "buf is the tail of that buffer into which Path.SerializeTo just wrote Path.Len() bytes; offsets are those of the path type that was serialized"},
 	"pkg/spao.zeroOutWithBase":                 {4, "same buffer; offsets follow the meta header of the path that was just serialized (NumINF <= 3 bounds SegLen)"},
 	"pkg/spao.bigEndianPutUint48":              {0, ""},
-	"pkg/stun.foreachAttr":                     {1, "b = b[4:] after len(b) >= 4; attrLen <= attrLenWithPad <= len(b) is tested before b[:attrLen]"},
 	"router/underlayproviders/udpip.computeProcID": {1, "numProcRoutines is the configured number of processors, validated > 0 at start-up (RunConfig); not attacker controlled"},
 	"(*router/underlayproviders/udpip.internalLink).processPacket": {1, "RawPacket is re-sliced to the STUN response that copy() just wrote into it; the response (<= 44 bytes) is shorter than the receive buffer capacity"},
 	"(*router/underlayproviders/udpip.internalLink).Resolve":      {1, "explicit panic on an address type other than IP/SVC: addr.Host has only these kinds besides None, which DstAddr never returns without error"},
